@@ -64,6 +64,9 @@ class RefBleAccessory:
         self.timed = {}
         self.decrypt_errors = []
         self.verify_fault = None                # callable(stage, honest_items) -> items (C01/C04 at transport level)
+        self.setup_handler = None               # callable(request TLV items) -> raw reply bytes for the pair-setup characteristic
+        self.feature_flags = 0
+        self.setup_reply_pieces = None
 
     def reset_link(self):
         self.session = None
@@ -161,6 +164,18 @@ class RefBleAccessory:
             return self.pair_verify(body)
         if h.kind == "pairings":
             return self.pairings(body)
+        if h.kind == "setup" and self.setup_handler is not None and op == OP_WRITE:
+            req = tlv_dec(dict(tlv_dec(body))[1])
+            if req == [(T_FRAGDATA, b"")]:
+                return 0, self._next_piece("setup")
+            raw = self.setup_handler(req)
+            if self.setup_reply_pieces:
+                n = self.setup_reply_pieces
+                self.frag_buffer["setup"] = [raw[i:i + n] for i in range(0, len(raw), n)]
+                return 0, self._next_piece("setup")
+            return 0, tlv_enc([(1, raw)])
+        if h.kind == "features" and op == OP_READ:
+            return 0, tlv_enc([(1, bytes([self.feature_flags]))])
         c = self.chars.get(iid)
         if c is None:
             return 4, b""
